@@ -19,7 +19,7 @@ def seg_key(seg):
     return (float(seg.baseline_cpu_seconds), law[0] if law else "?", float(seg.storage_read_gb))
 
 
-def step_generator(params, nticks, max_pipelines, stats, check=True):
+def step_generator(params, nticks, max_pipelines, stats, check=True, direct=False):
     """Step a fresh generator; structural oracle on every emission; returns gaps (ticks)."""
     import_repo()
     from eudoxia.workload import WorkloadGenerator
@@ -31,6 +31,12 @@ def step_generator(params, nticks, max_pipelines, stats, check=True):
     npl = params["num_pipelines"]
     probs = {"INTERACTIVE": params["interactive_prob"], "QUERY": params["query_prob"], "BATCH_PIPELINE": params["batch_prob"]}
     while t < nticks and stats["pipelines"] < max_pipelines:
+        if direct and t % 97 == 13:
+            # a caller taking an extra batch through the public generate_pipelines() (a burst, an initial backlog)
+            for p in g.generate_pipelines():
+                if p.pipeline_id in ids:
+                    raise Violation("C15.duplicate_id", {"pipeline": p.pipeline_id, "how": "generate_pipelines() called directly"}, t)
+                ids.add(p.pipeline_id)
         ret = g.run_one_tick()
         out = list(ret)
         if any(x is STALE for x in out):
@@ -112,7 +118,7 @@ def run_gen(scn):
     params = dict(scn["params"])
     st = new_stats()
     try:
-        gaps = step_generator(params, scn["nticks"], scn["max_pipelines"], st)
+        gaps = step_generator(params, scn["nticks"], scn["max_pipelines"], st, direct=bool(scn.get("direct_batches")))
         n = st["pipelines"]
         probes = {"events": st["events"], "pipelines": n}
         # priorities follow the configured probabilities
@@ -190,4 +196,5 @@ def gen_scn(r, tier):
     maxp = r.choice([600, 1500, 3000]) if tier == "quick" else r.choice([1500, 4000, 8000])
     return {"kind": "gen", "params": params, "nticks": 10 ** 9, "max_pipelines": maxp,
             "paired": r.random() < 0.3 and b + i > 0.3,
-            "zero_prob_class": 0 in (i, q, b), "prob_one": 1 in (i, q, b)}
+            "zero_prob_class": 0 in (i, q, b), "prob_one": 1 in (i, q, b),
+            "direct_batches": kind == "dense" and r.random() < 0.3}
